@@ -911,16 +911,44 @@ theorem listCopyLoopGen_eq_of {fuel : Nat} (hc : ∀ h v, copyGen fuel h v = cop
   | cons x xs ih => intro list h i; unfold listCopyLoopGen listCopyLoopRef <;>
       (try simp only [hc, ih]) <;> gen_case
 
+/-- How the loop helper of `(*object).copy` receives the clone under construction.  The helper's
+parameters are the locals its body mentions, with their types: the `Object` value returned by
+`NewObject()` (a `Ref`), or — when the source allocates the struct in place,
+`obj := &object{val: map[string]field{}}; obj.Init(obj)` — the address of the new cell (a `Nat`).
+The reference walk takes the `Ref`; `OfRef.of` hands it to the generated helper in the form it expects,
+so the statement below is the same for both shapes of the generated code. -/
+class OfRef (α : Type) where
+  of : Ref → α
+instance : OfRef Ref := ⟨fun r => r⟩
+instance : OfRef Nat := ⟨fun r => r.addr⟩
+
+/-- `obj.Set(key, g)` (one pair) step by step: `obj.val[key] = parseVal(g)` -/
+theorem set_one_unfold (H : Heap) (o : Nat) (k : Str) (g : GoVal) :
+    O.set H o [(some k, g)] false =
+      match parseVal H g with
+      | (H1, .panic p) => (H1, .panic p)
+      | (H1, .ok c) => (H1.setFields o (setKV (H1.fields o) k c),
+          .ok ((H1.setFields o (setKV (H1.fields o) k c)).egoRef o)) := by
+  simp only [O.set, O.setLoop, Bool.false_eq_true, ↓reduceIte]
+  rcases parseVal H g with ⟨H1, _ | _⟩ <;> rfl
+
+/-- `NewObject()`: `&object{val: map[string]field{}}`, `Init`, and a `Set()` of nothing -/
+theorem new_empty (h : Heap) : O.new h [] false = (h ++ [Cell.obj [] 0], .ok ⟨h.length, 0⟩) := by
+  simp [O.new, O.set, O.setLoop]
+
 theorem objectCopyLoopGen_eq_of {fuel : Nat} (hc : ∀ h v, copyGen fuel h v = copyRef fuel h v) :
     ∀ (fs : List (Str × Val)) (obj : Ref) (h : Heap),
-      objectCopyLoopGen fuel h obj fs = objectCopyLoopRef fuel h obj fs := by
+      objectCopyLoopGen fuel h (OfRef.of obj) fs = objectCopyLoopRef fuel h obj fs := by
   intro fs
   induction fs with
   | nil => intro obj h; unfold objectCopyLoopGen objectCopyLoopRef <;> gen_case
   | cons kv fs ih =>
     obtain ⟨k, v⟩ := kv
     intro obj h; unfold objectCopyLoopGen objectCopyLoopRef <;>
-      (try simp only [hc, ih]) <;> gen_case
+      (try simp only [hc, ih]) <;> (try simp only [OfRef.of]) <;>
+      first
+        | gen_case
+        | ((try simp only [set_one_unfold]) <;> gen_case)
 
 theorem listCopyGen_eq_of {fuel : Nat} (hc : ∀ h v, copyGen fuel h v = copyRef fuel h v)
     (h : Heap) (a : Nat) : listCopyGen fuel h a = listCopyRef fuel h a := by
@@ -929,8 +957,12 @@ theorem listCopyGen_eq_of {fuel : Nat} (hc : ∀ h v, copyGen fuel h v = copyRef
 
 theorem objectCopyGen_eq_of {fuel : Nat} (hc : ∀ h v, copyGen fuel h v = copyRef fuel h v)
     (h : Heap) (a : Nat) : objectCopyGen fuel h a = objectCopyRef fuel h a := by
+  have hl : ∀ (fs : List (Str × Val)) (n : Nat) (H : Heap),
+      objectCopyLoopGen fuel H (OfRef.of (⟨n, 0⟩ : Ref)) fs = objectCopyLoopRef fuel H ⟨n, 0⟩ fs :=
+    fun fs n H => objectCopyLoopGen_eq_of hc fs ⟨n, 0⟩ H
+  simp only [OfRef.of] at hl
   unfold objectCopyGen objectCopyRef <;>
-      (try simp only [objectCopyLoopGen_eq_of hc]) <;> gen_case
+      (try simp only [new_empty, hl]) <;> gen_case
 
 theorem copyGen_eq : ∀ (fuel : Nat) (h : Heap) (v : Val), copyGen fuel h v = copyRef fuel h v := by
   intro fuel
